@@ -127,7 +127,8 @@ def spellings(fam, tx, env):
     if fam == "optional":
         a = A(tx[1])
         return [("typing.Union[A,None]", typing.Union[a, None]), ("Optional[A]", typing.Optional[a]), ("A|None", a | None),
-                ("None|A", None | a), ("(A, None)", (a, type(None))), ("typing.Union[None,A]", typing.Union[None, a])]
+                ("None|A", None | a), ("(A, NoneType)", (a, type(None))), ("(A, None)", (a, None)), ("(None, A)", (None, a)),
+                ("typing.Union[None,A]", typing.Union[None, a])]
     if fam == "any":
         return [("object", object), ("missing", MISSING_ANN), ("typing.Any", typing.Any),
                 ("Annotated[Any,'m']", typing.Annotated[typing.Any, "m"]), ("Annotated[object,'m']", typing.Annotated[object, "m"])]
